@@ -72,6 +72,7 @@ fn one_record_callset(gt: &Gt) -> CallSet {
             info: 0,
             fmt_dp: false,
             fmt_gq: false,
+            ref_pad: 0,
             has_gt: true,
             force: 0,
             gts: vec![gt.clone(), Gt::diploid(Some(0), Some(1), false)],
